@@ -157,7 +157,14 @@ class C14(fw.Prop):
             def impl():
                 from dlms_cosem.utils import parse_as_dlms_data
                 try:
-                    r = "ok " + show_py(parse_as_dlms_data(data))
+                    v = parse_as_dlms_data(data)
+                    r = "ok " + show_py(v)
+                    # what the caller does with a decoded value (mark a reading's clock status, edit a list) does not change
+                    # what the same bytes decode to next time, nor what its other elements are
+                    fw.scribble(v)
+                    r2 = "ok " + show_py(parse_as_dlms_data(data))
+                    if r2 != r:
+                        r = r + " !second-decode-differs " + r2[:120]
                 except BaseException as e:
                     if isinstance(e, (KeyboardInterrupt, SystemExit)) or type(e).__name__ == "_Timeout":
                         raise
